@@ -238,6 +238,43 @@ pub fn finish(
                 cases.push(v.case.clone());
                 let got = judge_in_fresh_process(&json!({"cases": cases}));
                 if got.iter().any(|(c, _)| *c == v.clause) {
+                    // shrink the history: usually one or two earlier scenarios matter. Try single
+                    // earlier cases first, then drop halves (each trial is a fresh process).
+                    let last_case = cases.pop().unwrap();
+                    let mut hist = cases;
+                    let mut budget = 14;
+                    let fails_with = |h: &[Value], budget: &mut i32| -> bool {
+                        *budget -= 1;
+                        let mut all = h.to_vec();
+                        all.push(last_case.clone());
+                        judge_in_fresh_process(&json!({"cases": all})).iter().any(|(c, _)| *c == v.clause)
+                    };
+                    let mut shrunk = false;
+                    for k in 0..hist.len().min(6) {
+                        if budget <= 0 {
+                            break;
+                        }
+                        let single = vec![hist[hist.len() - 1 - k].clone()];
+                        if fails_with(&single, &mut budget) {
+                            hist = single;
+                            shrunk = true;
+                            break;
+                        }
+                    }
+                    while !shrunk && hist.len() > 1 && budget > 0 {
+                        let half = hist.len() / 2;
+                        let back = hist[half..].to_vec();
+                        let front = hist[..half].to_vec();
+                        if fails_with(&back, &mut budget) {
+                            hist = back;
+                        } else if budget > 0 && fails_with(&front, &mut budget) {
+                            hist = front;
+                        } else {
+                            break;
+                        }
+                    }
+                    let mut cases = hist;
+                    cases.push(last_case);
                     let n = cases.len();
                     let last = cases.pop().unwrap();
                     let mut with_history = last.clone();
